@@ -470,16 +470,6 @@ C07_Unb_Step(pre, rec, post, gh) ==
                           " but the pending unbondings of that validator lose " \o cut(a)) : a \in denoms}
 
 -----------------------------------------------------------------------------
-(* C08 slash callback is total *)
-C08_Step(pre, rec, post, gh) ==
-  IF ~(SlashValid(rec) /\ ValExists(pre, rec.args.v)) THEN {}
-  ELSE CheckK("C08", rec.ev # "SlashHook" \/ (rec.res.ok /\ ~rec.res.panic),
-              \* the callback claims rewards for the destination positions of pending redelegations: a short pool (K1, K2) makes it fail
-              HookFundsKF(rec, gh),
-              "slash callback failed: " \o rec.res.err)
-       \cup Check("C08", post.flag, "slash callback did not schedule a rebalance")
-
------------------------------------------------------------------------------
 (* C06 bonded stake: proportional, targeted, value conserving *)
 RedDstOut(gh, pre, v) == {<<gh.red[i].d, gh.red[i].dst, gh.red[i].a>> : i \in {i \in DOMAIN gh.red : gh.red[i].src = v /\ gh.red[i].due >= pre.now}}
 C06_Step(pre, rec, post, gh) ==
@@ -581,6 +571,23 @@ C07_Red_Step(pre, rec, post, gh) ==
                            ELSE IF OrphanedOnValidator(pre, k[2], k[3]) \/ PriceInflated(pre, k[2], k[3]) THEN "K8" ELSE HookFundsKF(rec, gh),
                            "slash of " \o v \o " by " \o f \o ": destination position " \o ToString(k) \o " did not lose the shares worth floor(f*redelegated) = " \o want(k) \o
                            " (capped at what it holds) per pending entry") : k \in live}
+
+-----------------------------------------------------------------------------
+(* C08 slash callback is total *)
+C08_Step(pre, rec, post, gh) ==
+  IF ~(SlashValid(rec) /\ ValExists(pre, rec.args.v)) THEN {}
+  ELSE CheckK("C08", rec.ev # "SlashHook" \/ (rec.res.ok /\ ~rec.res.panic),
+              \* the callback claims rewards for the destination positions of pending redelegations: a short pool (K1, K2) makes it fail
+              HookFundsKF(rec, gh),
+              "slash callback failed: " \o rec.res.err)
+       \cup Check("C08", post.flag, "slash callback did not schedule a rebalance")
+       \* ... having applied the slash to all pending unbondings and redelegations of the validator: a callback that returns
+       \* without error but leaves some of them untouched is not total either (the details are C07's)
+       \cup (LET inc == {x \in C07_Unb_Step(pre, rec, post, gh) \cup C07_Red_Step(pre, rec, post, gh) : x.p = "C07"}
+                 kfs == {x.kf : x \in inc}
+             IN  IF inc = {} \/ ~rec.res.ok THEN {}
+                 ELSE CheckK("C08", FALSE, IF "" \in kfs THEN "" ELSE CHOOSE k \in kfs : TRUE,
+                             "slash callback returned without error but did not apply the slash to every pending unbonding / redelegation of the validator"))
 
 -----------------------------------------------------------------------------
 (* C04 position isolation *)
